@@ -124,6 +124,11 @@ func (muxer *Muxer) process() {
 		}
 
 		if !packSequenceHeader{
+			if !muxer.parameterSetsKnown() {
+				// e.g. no sprop-parameter-sets in the SDP and the in-band ones not seen yet:
+				// nothing can be shown before them, and the sequence header needs them
+				continue
+			}
 			muxer.muxMetadataTag()
 			muxer.vp.PacketizeSequenceHeader()
 			muxer.ap.PacketizeSequenceHeader()
@@ -144,6 +149,15 @@ func (muxer *Muxer) process() {
 		default:
 		}
 	}
+}
+
+// parameterSetsKnown reports whether the video sequence header can be built.
+func (muxer *Muxer) parameterSetsKnown() bool {
+	v := muxer.videoMeta
+	if v.Codec == "H265" {
+		return len(v.Vps) > 0 && len(v.Sps) > 0 && len(v.Pps) > 0
+	}
+	return len(v.Sps) >= 4 && len(v.Pps) > 0 // AVCDecoderConfigurationRecord takes SPS[1..3]
 }
 
 func (muxer *Muxer) muxMetadataTag() error {
